@@ -59,10 +59,10 @@ def _params(fd, skip_self):
     return ps
 
 
-def _bind(fd, call, skip_self):
+def _bind(fd, call, skip_self, temps=None):
     """param -> argument AST, or None if the call cannot be bound simply"""
     if isinstance(skip_self, tuple) and skip_self[0] == "recv":
-        m = _bind(fd, call, True)
+        m = _bind(fd, call, True, temps)
         if m is None:
             return None
         # the receiver must not be rebound inside the helper (it is a plain name in the caller)
@@ -96,13 +96,49 @@ def _bind(fd, call, skip_self):
     for n in ast.walk(fd):
         if isinstance(n, ast.Name) and isinstance(n.ctx, (ast.Store, ast.Del)) and n.id in m:
             return None
-    # a non-trivial argument may be substituted only if the parameter is used at most once
-    for p, a in m.items():
+    # a non-trivial argument may be substituted only if the parameter is used at most once; when the caller can take
+    # statements (`temps` given) it is evaluated once into a temporary instead
+    for p, a in list(m.items()):
         if not _simple_arg(a):
             uses = sum(1 for n in ast.walk(fd) if isinstance(n, ast.Name) and n.id == p and isinstance(n.ctx, ast.Load))
             if uses > 1:
-                return None
+                if temps is None:
+                    return None
+                tn = "%s_arg%d" % (p, len(temps) + 1)
+                temps.append(ast.Assign(targets=[ast.Name(id=tn, ctx=ast.Store())], value=a))
+                m[p] = ast.Name(id=tn, ctx=ast.Load())
     return m
+
+
+class _BoolIfExp(ast.NodeTransformer):
+    """`False if c else X` is `(not c) and X`, `True if c else X` is `c or X`, `X if c else False` is `c and X`,
+    `X if c else True` is `(not c) or X` - for X that is itself a truth value (comparison, boolean operation,
+    boolean constant), so that guard literals can be read off a helper that returns early with True / False"""
+
+    def visit_IfExp(self, n):
+        self.generic_visit(n)
+
+        def boolish(e):
+            return isinstance(e, (ast.Compare, ast.BoolOp)) or (isinstance(e, ast.UnaryOp) and isinstance(e.op, ast.Not)) or \
+                (isinstance(e, ast.Constant) and isinstance(e.value, bool))
+
+        def const(e):
+            return e.value if isinstance(e, ast.Constant) and isinstance(e.value, bool) else None
+        if not (boolish(n.body) and boolish(n.orelse)):
+            return n
+        nt = ast.UnaryOp(op=ast.Not(), operand=n.test)
+        cb, co = const(n.body), const(n.orelse)
+        if cb is False:
+            r = nt if co is True else ast.BoolOp(op=ast.And(), values=[nt, n.orelse])
+        elif cb is True:
+            r = n.test if co is False else ast.BoolOp(op=ast.Or(), values=[n.test, n.orelse])
+        elif co is False:
+            r = ast.BoolOp(op=ast.And(), values=[n.test, n.body])
+        elif co is True:
+            r = ast.BoolOp(op=ast.Or(), values=[nt, n.body])
+        else:
+            return n
+        return ast.copy_location(r, n)
 
 
 def _expr_form(fd):
@@ -110,6 +146,8 @@ def _expr_form(fd):
     if len(b) == 1 and isinstance(b[0], ast.Return) and b[0].value is not None:
         return b[0].value
     e = _expr_of_block(b, {}, 0)
+    if e is not None:
+        e = _BoolIfExp().visit(e)
     if e is None:
         e = _memo_form(fd)
     return e
@@ -295,6 +333,53 @@ def _structure_returns(stmts, assign=None):
                 out.append(ast.copy_location(ast.If(test=st.test, body=tail, orelse=(st.orelse[:-1] or [])), st))
                 return out
             return None
+        if assign is not None and isinstance(st, ast.Try) and not st.finalbody:
+            # `try: ...; return A  except E: ...; return B` followed by the rest: every part assigns the result; what
+            # follows the statement runs only when no handler returned, i.e. it belongs to the `else` clause
+            rest = stmts[i + 1:]
+            def has_ret(b):
+                return any(isinstance(n, ast.Return) for x in b for n in ast.walk(x))
+            tb = list(st.body)
+            els = list(st.orelse) + list(rest)
+            if has_ret(tb):
+                # a return inside the protected block: only as its last statement, with a value that cannot raise
+                if not (isinstance(tb[-1], ast.Return) and not has_ret(tb[:-1])):
+                    return None
+                rv = tb[-1].value if tb[-1].value is not None else ast.Constant(value=None)
+                if isinstance(rv, (ast.Name, ast.Constant)):
+                    tb2 = tb[:-1] or [ast.Pass()]
+                    els2 = [ret_stmt(tb[-1])]
+                else:
+                    # `return f(x)`: the call stays protected, its value is kept in a temporary
+                    tmp = ast.Name(id="_try_value", ctx=ast.Store())
+                    tb2 = tb[:-1] + [ast.copy_location(ast.Assign(targets=[tmp], value=rv), tb[-1])]
+                    els2 = [ast.copy_location(ast.Assign(targets=[_clone(t) for t in assign], value=ast.Name(id="_try_value", ctx=ast.Load())), tb[-1])]
+                hs = []
+                for h in st.handlers:
+                    hb_ = _structure_returns(list(h.body), assign) if has_ret(h.body) else None
+                    if hb_ is None:
+                        if has_ret(h.body):
+                            return None
+                        hb_ = list(h.body) + [ast.Assign(targets=[_clone(t) for t in assign], value=ast.Constant(value=None))]
+                    hs.append(ast.copy_location(ast.ExceptHandler(type=h.type, name=h.name, body=hb_), h))
+                nt_ = ast.copy_location(ast.Try(body=tb2, handlers=hs, orelse=els2, finalbody=[]), st)
+                nt_._structured = True
+                out.append(nt_)
+                return out
+            if any(has_ret(h.body) for h in st.handlers):
+                els_s = _structure_returns(els, assign)
+                if els_s is None:
+                    return None
+                hs = []
+                for h in st.handlers:
+                    hb_ = _structure_returns(list(h.body), assign) if has_ret(h.body) else None
+                    if hb_ is None:
+                        return None
+                    hs.append(ast.copy_location(ast.ExceptHandler(type=h.type, name=h.name, body=hb_), h))
+                nt_ = ast.copy_location(ast.Try(body=tb, handlers=hs, orelse=els_s, finalbody=[]), st)
+                nt_._structured = True
+                out.append(nt_)
+                return out
         if any(isinstance(n, ast.Return) for n in ast.walk(st)):
             return None
         out.append(st)
@@ -337,6 +422,22 @@ def _decide(test):
     if isinstance(test, ast.UnaryOp) and isinstance(test.op, ast.Not):
         v = _decide(test.operand)
         return None if v is None else (not v)
+    if isinstance(test, ast.BoolOp):
+        vs = [_decide(v) for v in test.values]
+        if isinstance(test.op, ast.And):
+            # short circuit: a False operand decides the conjunction if every operand before it is decided True
+            for v in vs:
+                if v is False:
+                    return False
+                if v is None:
+                    break
+            return True if all(v is True for v in vs) else None
+        for v in vs:
+            if v is True:
+                return True
+            if v is None:
+                break
+        return False if all(v is False for v in vs) else None
     if isinstance(test, ast.Compare) and len(test.ops) == 1:
         a, op, b = test.left, test.ops[0], test.comparators[0]
 
@@ -367,6 +468,28 @@ def _thread_results(body):
     follows (`if x is None: return ...`) is moved into the branches (tail duplication) and decided where x was just
     given a constant, which restores the shape of the code before the helper was extracted."""
     for i, st in enumerate(body):
+        if isinstance(st, ast.Try) and getattr(st, "_structured", False) and i + 1 < len(body):
+            rest = body[i + 1:]
+            if sum(1 for _ in ast.walk(ast.Module(body=rest, type_ignores=[]))) > 400:
+                return body
+            if any(isinstance(n, ast.Raise) or (isinstance(n, ast.Call)) for x in rest[:1] for n in ast.walk(x) if False):
+                return body
+            # the rest goes behind every handler and behind the else clause (it is not protected by the try: the
+            # original statements followed the whole construct)
+            def leaf_t(block):
+                if _ends(block):
+                    return block
+                tail = [_clone(x) for x in rest]
+                if block and isinstance(block[-1], ast.Assign) and len(block[-1].targets) == 1 and isinstance(block[-1].targets[0], ast.Name) \
+                        and isinstance(block[-1].value, ast.Constant):
+                    tail = _const_tests(tail, block[-1].targets[0].id, block[-1].value.value)
+                return block + tail
+            # only safe inside a handler / else if the moved statements are not themselves protected differently:
+            # handler bodies and the else clause are outside the try's protection, exactly like the original position
+            for h in st.handlers:
+                h.body = leaf_t(h.body)
+            st.orelse = leaf_t(st.orelse)
+            return body[:i] + [st]
         if isinstance(st, ast.If) and getattr(st, "_structured", False) and i + 1 < len(body):
             rest = body[i + 1:]
             if sum(1 for _ in ast.walk(ast.Module(body=rest, type_ignores=[]))) > 400:
@@ -617,6 +740,8 @@ class Evolve:
     def run(self):
         self.gen_loops()
         if self.base_fn is not None:
+            self.new_constants()
+            self.new_parameters()
             self.statistics()
         if self.count:
             ast.fix_missing_locations(self.tree)
@@ -642,6 +767,29 @@ class Evolve:
                             self.count += 1
                             continue
                     i += 1
+        # `if any(P(x) for x in L): A` where A ends in return / raise  ==  `for x in L: if P(x): A` (first match wins,
+        # same evaluation order); what follows the `if` is reached when no element matches
+        for blk in [x for x in ast.walk(self.tree) if isinstance(getattr(x, "body", None), list)]:
+            for fld in ("body", "orelse", "finalbody"):
+                body = getattr(blk, fld, None)
+                if not isinstance(body, list):
+                    continue
+                for i, st in enumerate(body):
+                    if isinstance(st, ast.If) and not st.orelse and st.body and isinstance(st.body[-1], (ast.Return, ast.Raise)) \
+                            and isinstance(st.test, ast.Call) and isinstance(st.test.func, ast.Name) and st.test.func.id == "any" \
+                            and len(st.test.args) == 1 and isinstance(st.test.args[0], ast.GeneratorExp) \
+                            and len(st.test.args[0].generators) == 1 and not st.test.args[0].generators[0].is_async:
+                        g = st.test.args[0].generators[0]
+                        used_in_body = {x.id for s_ in st.body for x in ast.walk(s_) if isinstance(x, ast.Name)}
+                        tnames = {x.id for x in ast.walk(g.target) if isinstance(x, ast.Name)}
+                        if tnames & used_in_body:
+                            continue
+                        cond = st.test.args[0].elt
+                        if g.ifs:
+                            cond = ast.BoolOp(op=ast.And(), values=list(g.ifs) + [cond])
+                        inner = ast.copy_location(ast.If(test=cond, body=st.body, orelse=[]), st)
+                        body[i] = ast.copy_location(ast.For(target=g.target, iter=g.iter, body=[inner], orelse=[]), st)
+                        self.count += 1
         for n in ast.walk(self.tree):
             if isinstance(n, ast.For) and isinstance(n.iter, ast.GeneratorExp) and len(n.iter.generators) == 1 \
                     and not n.orelse:
@@ -656,6 +804,159 @@ class Evolve:
                     test = conds[0] if len(conds) == 1 else ast.BoolOp(op=ast.And(), values=conds)
                     n.body = [ast.copy_location(ast.If(test=test, body=n.body, orelse=[]), n)]
                 self.count += 1
+
+    # -- optional parameters introduced later
+    def new_parameters(self):
+        """A parameter with a constant default that a pinned function did not have, and that no call in the toolkit
+        passes, only ever holds its default for the call forms the properties quantify over: the function is
+        specialised to that default (the parameter's loads become the constant, conditions decided by it are
+        simplified)."""
+        import re
+        pth = os.path.join(VERIF, "spec", "baseline_names.json")
+        try:
+            with open(pth) as f:
+                bpar = json.load(f).get("params", {}).get(self.modname)
+        except (OSError, ValueError):
+            return
+        if bpar is None:
+            return
+        sib = ""
+        if self.path:
+            d = os.path.dirname(self.path)
+            try:
+                for fn in os.listdir(d):
+                    if fn.endswith(".py"):
+                        with open(os.path.join(d, fn), "r", encoding="utf-8", errors="replace") as f:
+                            sib += f.read() + "\n"
+            except OSError:
+                return
+        todo = []
+        for st in self.tree.body:
+            if isinstance(st, ast.FunctionDef):
+                todo.append((st.name, st))
+            elif isinstance(st, ast.ClassDef):
+                for x in st.body:
+                    if isinstance(x, ast.FunctionDef):
+                        todo.append(("%s.%s" % (st.name, x.name), x))
+        for key, fd in todo:
+            if key not in bpar:
+                continue
+            old_ps = set(bpar[key])
+            a = fd.args
+            pos = a.args
+            dflt = dict(zip([x.arg for x in pos[len(pos) - len(a.defaults):]], a.defaults))
+            for x, dv in zip(a.kwonlyargs, a.kw_defaults):
+                if dv is not None:
+                    dflt[x.arg] = dv
+            for nm, dv in dflt.items():
+                if nm in old_ps or not isinstance(dv, ast.Constant):
+                    continue
+                # passed anywhere as a keyword?  (positional use would need more arguments than the pinned signature has:
+                # checked by counting the positional arguments of calls to this name)
+                if re.search(r"\b%s\s*=" % re.escape(nm), re.sub(r"def\s+%s\s*\([^)]*\)" % re.escape(fd.name), "", sib)):
+                    continue
+                nposmax = len([x for x in pos if x.arg in old_ps])
+                too_many = False
+                for c in ast.walk(self.tree):
+                    if isinstance(c, ast.Call):
+                        cn = c.func.attr if isinstance(c.func, ast.Attribute) else c.func.id if isinstance(c.func, ast.Name) else None
+                        if cn == fd.name:
+                            extra = 1 if (isinstance(c.func, ast.Attribute) or not (pos and pos[0].arg in ("self", "cls"))) and pos and pos[0].arg in ("self", "cls") else 0
+                            if len(c.args) + extra > nposmax or any(isinstance(x, ast.Starred) for x in c.args) or any(k.arg is None for k in c.keywords):
+                                too_many = True
+                if too_many:
+                    continue
+                if any(isinstance(n, ast.Name) and n.id == nm and isinstance(n.ctx, (ast.Store, ast.Del)) for n in ast.walk(fd)):
+                    continue
+                for st in fd.body:
+                    _Sub({nm: dv}).visit(st)
+                _Simplify().visit(fd)
+                self.count += 1
+
+    # -- named constants introduced later
+    def new_constants(self):
+        """A class-level or module-level constant that did not exist at the pinned commit (`WINDOW = H // 2`,
+        `HDR_VER_DEFAULT = 0`), assigned once from an expression over literals and pinned names and never stored
+        again, stands for that expression: its loads (`self.WINDOW`, `cls.WINDOW`, `Class.WINDOW`, `WINDOW`) are replaced
+        by the expression, which restores the code the rules were written for."""
+        import re
+        battrs = baseline_attrs()
+        if battrs is None:
+            return
+        p = os.path.join(VERIF, "spec", "baseline_names.json")
+        try:
+            with open(p) as f:
+                bglob = set(json.load(f).get("globals", {}).get(self.modname, []))
+        except (OSError, ValueError):
+            return
+
+        def pure_const(v, allowed_names):
+            for x in ast.walk(v):
+                if isinstance(x, (ast.Call, ast.Lambda, ast.Yield, ast.Await, ast.NamedExpr, ast.ListComp, ast.DictComp, ast.SetComp,
+                                  ast.GeneratorExp, ast.Dict, ast.List, ast.Set, ast.JoinedStr, ast.Starred)):
+                    return False
+                if isinstance(x, ast.Name) and x.id.islower() and x.id not in allowed_names:
+                    return False        # (upper-case names: constants of this or an imported module)
+            return True
+        # module level
+        mod_new = {}
+        for st in self.tree.body:
+            if isinstance(st, ast.Assign) and len(st.targets) == 1 and isinstance(st.targets[0], ast.Name):
+                nm = st.targets[0].id
+                if nm not in bglob and nm.isupper() and pure_const(st.value, bglob | set(mod_new)):
+                    mod_new[nm] = st
+        for nm in list(mod_new):
+            stores = sum(1 for x in ast.walk(self.tree) if isinstance(x, ast.Name) and x.id == nm and isinstance(x.ctx, (ast.Store, ast.Del)))
+            if stores != 1:
+                mod_new.pop(nm)
+        # class level
+        cls_new = {}
+        for cls in [x for x in self.tree.body if isinstance(x, ast.ClassDef)]:
+            local = {}
+            prior = set()
+            for st in cls.body:
+                if isinstance(st, ast.Assign) and len(st.targets) == 1 and isinstance(st.targets[0], ast.Name):
+                    nm = st.targets[0].id
+                    if nm not in battrs and nm.isupper() and pure_const(st.value, bglob | set(mod_new) | prior):
+                        local[nm] = st
+                    prior.add(nm)
+            for nm, st in local.items():
+                stores = sum(1 for x in ast.walk(self.tree) if isinstance(x, ast.Attribute) and x.attr == nm and isinstance(x.ctx, (ast.Store, ast.Del)))
+                if stores == 0 and nm not in cls_new:
+                    cls_new[nm] = (cls.name, st)
+                else:
+                    cls_new[nm] = None
+        cls_new = {k: v for k, v in cls_new.items() if v is not None}
+        if not mod_new and not cls_new:
+            return
+        me = self
+
+        class R(ast.NodeTransformer):
+            def visit_Attribute(self_, n):
+                self_.generic_visit(n)
+                if isinstance(n.ctx, ast.Load) and n.attr in cls_new and isinstance(n.value, ast.Name) \
+                        and n.value.id in ("self", "cls", cls_new[n.attr][0]):
+                    me.count += 1
+                    return ast.copy_location(R().visit(_clone(cls_new[n.attr][1].value)), n)
+                return n
+
+            def visit_Name(self_, n):
+                if isinstance(n.ctx, ast.Load) and n.id in mod_new:
+                    me.count += 1
+                    return ast.copy_location(R().visit(_clone(mod_new[n.id].value)), n)
+                return n
+        # class-level values may mention earlier class-level constants by bare name: resolve inside the class body first
+        for cls in [x for x in self.tree.body if isinstance(x, ast.ClassDef)]:
+            for st in cls.body:
+                if isinstance(st, ast.Assign):
+                    class RC(ast.NodeTransformer):
+                        def visit_Name(self_, n):
+                            if isinstance(n.ctx, ast.Load) and n.id in cls_new and cls_new[n.id][0] == cls.name:
+                                return ast.copy_location(_clone(cls_new[n.id][1].value), n)
+                            return n
+                    st.value = RC().visit(st.value)
+        for fd in [n for n in ast.walk(self.tree) if isinstance(n, ast.FunctionDef)]:
+            R().visit(fd)
 
     # -- statistics attributes
     def statistics(self):
@@ -796,6 +1097,38 @@ class Inliner:
         # candidates: new module-level functions and new methods (by class)
         self.funcs = {}
         self.methods = {}
+        self.foreign = {}        # method name -> FunctionDef of a later-introduced expression helper of a sibling module
+        if path and self.base is not None:
+            d_ = os.path.dirname(path)
+            try:
+                names_ = sorted(f for f in os.listdir(d_) if f.endswith(".py") and os.path.join(d_, f) != path and not f.startswith("test_"))
+            except OSError:
+                names_ = []
+            dup = set()
+            for f in names_:
+                b2 = baseline().get(f[:-3])
+                if b2 is None:
+                    continue
+                try:
+                    with open(os.path.join(d_, f), "r", encoding="utf-8") as fh_:
+                        t2 = ast.parse(fh_.read())
+                except (OSError, SyntaxError):
+                    continue
+                for cls_ in [x for x in t2.body if isinstance(x, ast.ClassDef)]:
+                    for m_ in cls_.body:
+                        if isinstance(m_, ast.FunctionDef) and m_.name not in b2 and not (m_.name.startswith("__") and m_.name.endswith("__")) \
+                                and not m_.decorator_list:
+                            if m_.name in self.foreign:
+                                dup.add(m_.name)
+                            self.foreign[m_.name] = m_
+            for n_ in dup:
+                self.foreign.pop(n_, None)
+            allnames = set()
+            for v_ in baseline().values():
+                allnames |= set(v_)
+            for n_ in list(self.foreign):
+                if n_ in allnames:
+                    self.foreign.pop(n_)        # a pinned function of that name exists somewhere: ambiguous
         self.modnames = set()
         for st in tree.body:
             if isinstance(st, ast.Import):
@@ -816,6 +1149,17 @@ class Inliner:
     def target(self, call):
         """(FunctionDef, skip_self) for a call to a new helper, else None"""
         f = call.func
+        if isinstance(f, ast.Attribute) and f.attr in self.foreign and f.attr not in self.methods \
+                and isinstance(f.value, ast.Name) and f.value.id not in self.modnames:
+            # `obj.helper(...)`: an expression helper defined in a sibling module (only self attributes / parameters
+            # may occur in it, so it means the same in this module)
+            fd = self.foreign[f.attr]
+            e = _expr_form(fd)
+            ps = [a.arg for a in fd.args.args]
+            if e is not None and ps and ps[0] == "self":
+                free = {n.id for n in ast.walk(e) if isinstance(n, ast.Name)} - set(ps) - {"True", "False", "None", "len", "int", "abs", "min", "max"}
+                if not free:
+                    return fd, (("recv", f.value.id) if f.value.id != "self" else True)
         if isinstance(f, ast.Name) and f.id in self.funcs:
             return self.funcs[f.id], False
         if isinstance(f, ast.Attribute) and f.attr in self.methods and len(self.methods[f.attr]) == 1:
@@ -840,8 +1184,12 @@ class Inliner:
         return None
 
     def run(self):
-        if not self.funcs and not self.methods:
-            return 0
+        if not self.funcs and not self.methods and not self.foreign:
+            if self.base is not None:
+                for fd in [n for n in ast.walk(self.tree) if isinstance(n, ast.FunctionDef)]:
+                    self.propagate_attr_aliases(fd)
+                ast.fix_missing_locations(self.tree)
+            return self.count
         for _ in range(3):
             before = self.count
             for fd in [n for n in ast.walk(self.tree) if isinstance(n, ast.FunctionDef)]:
@@ -1115,12 +1463,15 @@ class Inliner:
                         bad = any(isinstance(n, (ast.Yield, ast.YieldFrom, ast.Global, ast.Nonlocal, ast.FunctionDef, ast.Lambda))
                                   for s_ in hb for n in ast.walk(s_))
                         multi = hb and not bad and len(rets) >= 2 and _expr_form(h) is None and \
-                            not any(isinstance(n, (ast.For, ast.While, ast.Try, ast.With)) and any(isinstance(x, ast.Return) for x in ast.walk(n))
+                            not any(isinstance(n, (ast.For, ast.While, ast.With)) and any(isinstance(x, ast.Return) for x in ast.walk(n))
                                     for s_ in hb for n in ast.walk(s_))
                         if multi:
-                            m = _bind(h, st.value, skip)
+                            temps = []
+                            m = _bind(h, st.value, skip, temps)
                             body2 = _structure_returns([_clone(x) for x in hb], assign=st.targets) if m is not None else None
                             if body2 is not None:
+                                for t_ in temps:
+                                    out.append(ast.copy_location(t_, st))
                                 hlocals = {n.id for s_ in hb for n in ast.walk(s_) if isinstance(n, ast.Name)
                                            and isinstance(n.ctx, (ast.Store, ast.Del))}
                                 used = {n.id for n in ast.walk(fd) if isinstance(n, ast.Name)} | {a.arg for a in fd.args.args}
